@@ -6,18 +6,18 @@ rows = []
 for d in sorted(glob.glob(ROOT + '/seeded/C*')):
     m = json.load(open(d + '/meta.json'))
     name = os.path.basename(d)
-    rnd = {'b': 2, 'c': 3, 'd': 4}.get(name[3], 1)
+    rnd = {'b': 2, 'c': 3, 'd': 4, 'e': 5}.get(name[3], 1)
     note = re.sub(r'^round \d; ', '', m['evaluation_note']).replace('|', '/')
     rows.append((name, rnd, m['breaks_property'], ', '.join(m['detected_by']), 'yes' if m['detected_before_strengthening'] else 'no', note))
 out = []
 out.append("### 9.3 Independent seeded changes (sub-agents) and what they taught\n")
-out.append("Four rounds of twenty changes each were written by fresh sub-agents, one agent per property, each seeing only the")
-out.append("text of its property and a scratch worktree of `/repo` (never `/verif`); rounds 2 to 4 were told what the earlier")
+out.append("Five rounds of twenty changes each were written by fresh sub-agents, one agent per property, each seeing only the")
+out.append("text of its property and a scratch worktree of `/repo` (never `/verif`); rounds 2 to 5 were told what the earlier")
 out.append("rounds had done for that property and asked for a different mechanism.  Every change compiles, leaves the 157")
 out.append("stable tests passing, and comes with a demonstration that fails with it and passes without")
 out.append("(`seeded/<name>/{patch.diff, demo.sh, *.bn, meta.json}`).  Each was applied to `/repo` (`tools/seedeval.sh`: `git")
 out.append("apply`, the suite, the demo, the quick check, `git apply -R`), never committed there.\n")
-for r in (1, 2, 3, 4):
+for r in (1, 2, 3, 4, 5):
     rr = [x for x in rows if x[1] == r]
     own = sum(1 for x in rr if x[4] == 'yes')
     out.append(f"* round {r}: {own} of {len(rr)} were reported by the property's own check as it stood when the change was written.")
@@ -44,7 +44,12 @@ out.append("(round 4) whole rows and columns of the operator matrix in one run; 
 out.append("binding the parser allows them); CRLF line ends; names and receiver chains of every length in three alphabets in")
 out.append("diagnostics; indexes one rounding error away from a whole number; object->array->object literal sites; stdin")
 out.append("delivery as a schedule for both input names; exact container text (calibrated) with empty strings at every position;")
-out.append("loops without a condition as wrappers.\n")
+out.append("loops without a condition as wrappers; (round 5) every built-in and several function shapes under ==; the enclosing")
+out.append("function's own name as a variable; sequences of calls over all return forms; format-special characters in quoted")
+out.append("text; every built-in on every argument list; texts stretched across powers of two (which exposed defect 15); every")
+out.append("kind as an index; easily confused property names; forced garbage collections (memory layout); bare literal operands;")
+out.append("values shown after histories; every split of a text as a producer; rows and columns of built-in calls in one run;")
+out.append("several static faults per text with the whole diagnostic list compared; deep recursion in prompt lines.\n")
 out.append("### 9.4 Vetted single-site mutants\n")
 ms = json.load(open(ROOT + '/mutants/mutants.json'))
 live = [m for m in ms if m.get('passes_existing_tests') and not m.get('equivalent')]
